@@ -695,8 +695,40 @@ def _c05_weak_after_death(tier, seed):
     return out
 
 
+def _c05_dtor_downgrades(tier, seed):
+    """no Weak to any member exists anywhere; a member destructor downgrades each strong handle its value holds (the peer may already be
+    destroyed by the same collection): the new Weak must be an ordinary dead / live Weak, and the allocation must stay until it is dropped"""
+    items = []
+    R = lambda i, j: (i, j, True, False)
+    sh = [(2, [R(0, 1)], 'owner-target'), (2, [R(0, 1), R(1, 0)], 'ring2'), (1, [(0, 0, True, False)], 'selfclone1'), (3, F.named_shapes(3)['ring3'], 'ring3'),
+          (3, F.named_shapes(3)['ring2+tail'], 'ring2+tail'), (2, [(0, 1, False, False)], 'chain-unrecorded')]
+    for (n, e, nm) in sh:
+        outdeg = {}
+        for (i, j, r, s) in e:
+            outdeg[i] = outdeg.get(i, 0) + 1
+        for actor in range(n):
+            if not outdeg.get(actor):
+                continue
+            do = []
+            keep = []
+            for k in range(outdeg[actor]):
+                do += [{'op': 'downgrade', 'h': '@%d' % k, 'as': 'dw%d' % k}, {'op': 'w_strong_count', 'w': 'dw%d' % k}]
+                keep.append('dw%d' % k)
+            for seq in F.drop_sequences(n, n)[:2 if tier == 'quick' else None]:
+                ops = F.build_ops(n, e, extras=True) + [{'op': 'on_drop', 'obj': actor, 'do': do}]
+                for (kk, i) in seq:
+                    ops += F.drop_ops([(kk, i)])
+                # the Weak handles the destructor made are looked at and dropped by the program afterwards (if the destructor ran)
+                for w in keep:
+                    ops += [{'op': 'upgrade_if', 'w': w}, {'op': 'wdrop_if', 'w': w}]
+                items.append(dict(prop='C05', name='%s dtor%d downgrades its handles drops=%s' % (nm, actor, ''.join('%s%d' % q for q in seq)), script={'ops': ops}, sym=True,
+                                  oracles={'C05'}, opts={'panics_ok': True}, layouts=std_layouts(n, tier, seed)[:2]))
+    return items
+
+
 def items_C05(tier, seed, P):
-    return (_c05_weak_after_death(tier, seed) + weak_graph_items('C05', tier, seed, {'C05'}, opts={'panics_ok': True}) + consume_weak_items('C05', tier, seed)
+    return (_c05_weak_after_death(tier, seed) + _c05_dtor_downgrades(tier, seed) + weak_graph_items('C05', tier, seed, {'C05'}, opts={'panics_ok': True}) + consume_weak_items('C05', tier, seed)
+            + weak_graph_items('C05', tier, seed, {'C05'}, opts={'panics_ok': True}, one_weak=True)
             + panic_weak_items('C05', tier, seed) + weak_api_items('C05', tier, seed, {'C05'}) + lemma_items('C05', ['downgrade', 'weakdrop', 'upgrade']))
 
 
@@ -1740,6 +1772,7 @@ def items_C07(tier, seed, P):
         'clone': ([{'op': 'clone', 'h': 'a', 'as': 'c'}], True),
         'clone-drop': ([{'op': 'clone', 'h': 'a', 'as': 'c'}, {'op': 'drop', 'h': 'c'}], True),
         'drop': ([{'op': 'drop', 'h': 'a'}], False),
+        'drop-via-raw': ([{'op': 'drop_via_raw', 'h': 'a'}], False),
         'drop_extra': ([{'op': 'drop_extra', 'obj': 0}], True),
         'downgrade': ([{'op': 'downgrade', 'h': 'a', 'as': 'w2'}], True),
         'upgrade': ([{'op': 'upgrade', 'w': 'wa', 'as': 'u'}], True),
@@ -1921,6 +1954,7 @@ def api_items(prop, tier, seed, oracles, opts=None):
         'inc-dec': lambda h: [{'op': 'as_ptr', 'h': h, 'as': 'rp'}, {'op': 'inc_strong', 'r': 'rp'}, {'op': 'dec_strong', 'r': 'rp'}],
         'weak-raw': lambda h: [{'op': 'downgrade', 'h': h, 'as': 'wq'}, {'op': 'w_into_raw', 'w': 'wq', 'as': 'rq'}, {'op': 'w_from_raw', 'r': 'rq', 'as': 'wq'},
                                {'op': 'upgrade', 'w': 'wq'}, {'op': 'wdrop', 'w': 'wq'}],
+        'release-via-raw': lambda h: [],
     }
     named = dict(F.named_shapes(2))
     named.update(F.named_shapes(3))
@@ -1940,7 +1974,11 @@ def api_items(prop, tier, seed, oracles, opts=None):
                         ops = F.build_ops(n, e, extras=True)
                         ops += F.drop_ops(seq[:when])
                         ops += mk(H(tgt))
-                        ops += F.drop_ops(seq[when:])
+                        rest = F.drop_ops(seq[when:])
+                        if an == 'release-via-raw':
+                            # the target's named handle is given up through into_raw + decrement_strong_count instead of a drop
+                            rest = [({'op': 'drop_via_raw', 'h': o['h']} if o.get('op') == 'drop' and o.get('h') == H(tgt) else o) for o in rest]
+                        ops += rest
                         items.append(dict(prop=prop, name='%s %s on %d after %d drops, drops=%s' % (nm, an, tgt, when, ''.join('%s%d' % q for q in seq)),
                                           script={'ops': ops}, sym=True, oracles=set(oracles), opts=dict(opts or {}), layouts=std_layouts(n, tier, seed)[:2]))
     return items
